@@ -255,3 +255,10 @@ EXPLANATION = ("Line attribution is decided on the assumed traversal (C03 driver
                "statement is committed, and the one-sided exceptional postconditions `raise => current line == line of the "
                "statement` are NOT provable (finding F2). @print delivery is proved on on_directive and the directive visitors.")
 ASSUMPTIONS = list(getattr(c03, "ASSUMPTIONS", []))
+
+
+# effect obligations (AST, complete for what they state): no argument-keyed cache decorator, no module-level state - see
+# specs/common.py (the outcome of reading a text depends on the text and its dependencies, not on earlier reads)
+from .common import no_hidden_state_check as _no_hidden_state_check  # noqa: E402
+EXTRA_CHECKS = list(globals().get("EXTRA_CHECKS", [])) + [_no_hidden_state_check(
+    ["pydsdl._parser", "pydsdl._data_type_builder", "pydsdl._error"], "the location protocol")]
